@@ -46,6 +46,7 @@ class Tr(object):
         self.externals = spec.get('externals', {})     # dotted python expr -> param name
         self.ext_types = spec.get('external_types', {})
         self.drop_calls = spec.get('drop_calls', ['self.ui.'])
+        self.sqrt_fields = spec.get('sqrt_fields', {})   # python field assigned sqrt(e) -> state field tracking e
         self.ignore_locals = set(spec.get('ignore_locals', []))   # e.g. message strings only handed to the UI
 
     # ---------------------------------------------------------------- expressions
@@ -56,6 +57,27 @@ class Tr(object):
         if isinstance(node, ast.Name):
             return node.id
         return None
+
+    def is_bool(self, e, locals_):
+        if isinstance(e, (ast.Compare, ast.BoolOp)):
+            return True
+        if isinstance(e, ast.UnaryOp) and isinstance(e.op, ast.Not):
+            return True
+        if isinstance(e, ast.Constant):
+            return isinstance(e.value, bool)
+        d = self.dotted(e)
+        if d is not None and d.startswith('self.') and d.count('.') == 1:
+            return self.state.get(d[5:]) == 'Bool'
+        if isinstance(e, ast.Call):
+            fn = self.dotted(e.func) or ''
+            if fn.startswith('self.') and fn[5:] in self.spec['methods']:
+                return self.spec['methods'][fn[5:]].get('returns') == 'Bool'
+        return False
+
+    def cond(self, e, locals_):
+        """an expression in a boolean position: Python truthiness of a number is `!= 0`"""
+        t = self.expr(e, locals_)
+        return t if self.is_bool(e, locals_) else '(decide (%s ≠ 0))' % t
 
     def num(self, v):
         if isinstance(v, bool):
@@ -82,6 +104,8 @@ class Tr(object):
                 return self.externals[d]
             if d.startswith('self.') and d.count('.') == 1:
                 f = d[5:]
+                if f in self.sqrt_fields:
+                    raise Unsupported('square-root field %s is read' % f)
                 if f in self.ignore:
                     raise Unsupported('ignored field %s is read' % f)
                 if f not in self.state:
@@ -105,11 +129,11 @@ class Tr(object):
             if isinstance(e.op, ast.USub):
                 return '(- %s)' % self.expr(e.operand, locals_)
             if isinstance(e.op, ast.Not):
-                return '(! %s)' % self.expr(e.operand, locals_)
+                return '(! %s)' % self.cond(e.operand, locals_)
             raise Unsupported('unary %s' % type(e.op).__name__)
         if isinstance(e, ast.BoolOp):
             op = ' && ' if isinstance(e.op, ast.And) else ' || '
-            return '(' + op.join(self.expr(v, locals_) for v in e.values) + ')'
+            return '(' + op.join(self.cond(v, locals_) for v in e.values) + ')'
         if isinstance(e, ast.Compare):
             if len(e.ops) != 1:
                 raise Unsupported('chained comparison')
@@ -180,6 +204,15 @@ class Tr(object):
             d = self.dotted(target)
             if d is None:
                 raise Unsupported('assignment target')
+            if d.startswith('self.') and d.count('.') == 1 and d[5:] in self.sqrt_fields:
+                # `self.f = math.sqrt(e)`: the state tracks e (= f squared), exactly
+                f = d[5:]
+                if aug is not None or not (isinstance(value, ast.Call) and self.dotted(value.func) in ('sqrt', 'math.sqrt')
+                                           and len(value.args) == 1):
+                    raise Unsupported('self.%s is not assigned a square root' % f)
+                v = self.expr(value.args[0], locals_)
+                return (pad + 'let self := { self with %s := %s }\n' % (lean_name(self.sqrt_fields[f]), v)
+                        + self.block(rest, locals_, returns_value, indent))
             if d.startswith('self.') and d.count('.') == 1:
                 f = d[5:]
                 if f in self.ignore:
@@ -207,7 +240,7 @@ class Tr(object):
                         + self.block(rest, locals_ | {target.id}, returns_value, indent))
             raise Unsupported('assignment to %s' % d)
         if isinstance(s, ast.If):
-            c = self.expr(s.test, locals_)
+            c = self.cond(s.test, locals_)
             a = self.block(list(s.body) + rest, locals_, returns_value, indent + 1)
             b = self.block(list(s.orelse) + rest, locals_, returns_value, indent + 1)
             return pad + 'if %s then\n%s\n%selse\n%s' % (c, a, pad, b)
@@ -236,6 +269,12 @@ class Tr(object):
                 d = self.dotted(s.targets[0])
                 if d and d.startswith('self.') and d.count('.') == 1:
                     f = d[5:]
+                    if f in self.sqrt_fields:
+                        if isinstance(s.value, ast.Constant) and isinstance(s.value.value, (int, float)):
+                            vals[self.sqrt_fields[f]] = self.num(s.value.value * s.value.value)
+                        else:
+                            raise Unsupported('non-constant initial value of %s' % f)
+                        continue
                     if f in self.state:
                         if isinstance(s.value, ast.Constant):
                             vals[f] = self.num(s.value.value)
